@@ -9,6 +9,19 @@ pub fn generate(r: &mut Rng, tier: &str, emit: &mut dyn FnMut(String)) {
             emit(gen_restart(r));
             continue;
         }
+        if i % 5 == 2 {
+            // a scripted responder: instances that are found but not resolved yet (PTR only,
+            // record sets split over packets) while searches are started again, stopped, or
+            // served from the cache - the order of events on every channel
+            let st = r.range(3, 10);
+            let tl = *r.pick(&[3_000u64, 12_000]);
+            emit(gen_scripted(r, "C13", st, tl, 3000));
+            continue;
+        }
+        if i % 10 == 1 {
+            emit(gen_half_known(r));
+            continue;
+        }
         if i % 3 == 0 {
             // silent network: the scheduler model predicts these exactly
             let s = crate::c19::gen_silent(r).replacen("sim C19", "sim C13", 1);
@@ -74,6 +87,44 @@ pub fn gen_restart(r: &mut Rng) -> String {
         }
     }
     now += *r.pick(&[5_000u64, 20_000, 70_000]);
+    cmds.push(format!("run {}", now));
+    format!("sim C13 {}", cmds.join(" ; "))
+}
+
+/// An instance of which only the PTR is cached when a second search for the type starts (a
+/// browse again, or a cache-only browse); the rest of its records arrive afterwards: every
+/// channel must hear ServiceFound before ServiceResolved.
+pub fn gen_half_known(r: &mut Rng) -> String {
+    let mut cmds: Vec<String> = vec![format!("daemon {}", ifaces_of(0, false))];
+    cmds.push("ipint 0 100000".to_string());
+    let mut now = 1_000_000u64;
+    cmds.push(format!("run {}", now));
+    let inst = gen_inst(r, 0);
+    let t = Ttls { ptr: 4500, srv: 120, txt: 4500, addr: 120 };
+    let recs = recs_of(&inst, &t, true);
+    if r.chance(3, 4) {
+        cmds.push(format!("browse 0 1 {}", hx(&inst.ty)));
+    } else {
+        cmds.push("accept 0 1".to_string());
+    }
+    cmds.push(format!("run {}", now));
+    cmds.push(format!("inject 0 2 1 192.168.1.50 5353 {}", response(&recs[..1], &[])));
+    now += *r.pick(&[0u64, 100, 600, 1700]);
+    cmds.push(format!("run {}", now));
+    cmds.push(format!("{} 0 2 {}", if r.chance(1, 2) { "browse" } else { "browsec" }, hx(&inst.ty)));
+    now += *r.pick(&[0u64, 100, 400]);
+    cmds.push(format!("run {}", now));
+    match r.below(3) {
+        0 => cmds.push(format!("inject 0 2 1 192.168.1.50 5353 {}", response(&recs[1..], &[]))),
+        1 => {
+            cmds.push(format!("inject 0 2 1 192.168.1.50 5353 {}", response(&recs[1..3], &[])));
+            now += 200;
+            cmds.push(format!("run {}", now));
+            cmds.push(format!("inject 0 2 1 192.168.1.50 5353 {}", response(&recs[3..], &[])));
+        }
+        _ => {}
+    }
+    now += 4000;
     cmds.push(format!("run {}", now));
     format!("sim C13 {}", cmds.join(" ; "))
 }
